@@ -185,11 +185,60 @@ def time_stream(ctx):
                                           'model': ''.join(map(chr, out))})
 
 
+TEMPLATE_MIB = ('ACME-TPL-MIB DEFINITIONS ::= BEGIN IMPORTS OBJECT-TYPE, Integer32, enterprises FROM SNMPv2-SMI;\n'
+                'acmeTplObj OBJECT-TYPE SYNTAX Integer32 (0..7) UNITS "u" MAX-ACCESS read-only STATUS current DESCRIPTION "d" ::= { enterprises 87 }\nEND\n')
+
+
+def custom_template(backend):
+    """the document rendered through a user-supplied template (a copy of the stock one, elsewhere on disk) is the stock
+    document; returns a description of what went wrong, or None"""
+    import os
+    import shutil
+    from common import REPO, scratch_dir
+    from impl import pipeline
+    stock = {'json': os.path.join('jsondoc', 'base.j2'), 'pysnmp': os.path.join('pysnmp', 'mib-definitions.j2')}[backend]
+    d = scratch_dir()
+    try:
+        # a bare file name in a directory of its own: the form both generators document
+        shutil.copy(os.path.join(REPO, 'pysmi', 'codegen', 'templates', stock), os.path.join(d, 'custom.j2'))
+        cwd = os.getcwd()
+        try:
+            os.chdir(d)
+            try:
+                st1, out1, _ = pipeline.compile_set({'ACME-TPL-MIB': TEMPLATE_MIB}, backend=backend, genTexts=True)
+                st2, out2, _ = pipeline.compile_set({'ACME-TPL-MIB': TEMPLATE_MIB}, backend=backend, genTexts=True, dstTemplate='custom.j2')
+            except BaseException as e:
+                return 'compile() with dstTemplate raised %s: %s' % (type(e).__name__, e)
+        finally:
+            os.chdir(cwd)
+        if str(st2.get('ACME-TPL-MIB')) != 'compiled':
+            return 'with dstTemplate the module is %s (%s)' % (st2.get('ACME-TPL-MIB'), getattr(st2.get('ACME-TPL-MIB'), 'error', None))
+
+        a, b = out1['ACME-TPL-MIB'], out2['ACME-TPL-MIB']
+        if backend == 'json':
+            import json
+            a, b = dict(json.loads(a), meta=0), dict(json.loads(b), meta=0)
+        else:
+            # (the header docstring carries the time of day)
+            a, b = [[l for l in t.split('\n') if not l.startswith('#') and not l.startswith('Produced by ')] for t in (a, b)]
+        if a != b:
+            return 'the document rendered through a copy of the stock template differs from the stock document'
+        return None
+    finally:
+        shutil.rmtree(d, ignore_errors=True)
+
+
 def run(ctx):
     res = ctx.res
     res.rule = ('module sets from the shared generator (all ten symbol-producing declaration kinds, any mix, shuffled order, with and '
                 'without texts, nasty texts: backslash sequences, apostrophes, non-ASCII, 130-character words); JSON backend only; '
                 'non-trivial = at least 3 declarations; distinct by generated text')
+    for be in ('json', 'pysnmp'):
+        res.case(('custom-template', be), True)
+        res.count('custom-template')
+        bad = custom_template(be)
+        if bad:
+            res.oracle_failures.append({'key': 'custom-template', 'what': '%s backend: %s' % (be, bad), 'input': {'custom_template': be}})
     n = 120 if ctx.tier == 'quick' else 2000
     reqs, metas = [], []
     base = ctx.seed * 100000 + 50000
@@ -218,6 +267,9 @@ def search(ctx):
 
 
 def replay(payload):
+    if 'custom_template' in payload['input']:
+        bad = custom_template(payload['input']['custom_template'])
+        return {'fails': bool(bad), 'what': bad}
     if 'stamp' in payload['input']:
         from pysmi.codegen.jsondoc import JsonCodeGen
         try:
